@@ -1,7 +1,7 @@
 (* CloseThm.v -- the statements Props/C14.v and Props/C06.v export *)
 From Coq Require Import List Arith Bool Lia.
 From RW Require Import Conc.Sys Conc.SysFacts Conc.Close Conc.ListX Conc.CloseInv Conc.CloseFacts
-     Conc.CloseK Conc.CloseStep1 Conc.CloseSafe Conc.CloseSafeStep.
+     Conc.CloseK Conc.CloseStep1 Conc.CloseLive Conc.CloseSafe Conc.CloseSafeStep.
 Import ListNotations.
 
 Definition reach (progs extra : list (list op)) (s : sys) : Prop :=
